@@ -4,7 +4,7 @@ import os
 import common
 
 
-def env(log, fail_at=None, errno_=None, short_at=None):
+def env(log, fail_at=None, errno_=None, short_at=None, readdir_at=None):
     e = {'LD_PRELOAD': common.SHIM, 'RQ_LOG': log}
     if fail_at is not None:
         e['RQ_FAIL_AT'] = str(fail_at)
@@ -12,6 +12,8 @@ def env(log, fail_at=None, errno_=None, short_at=None):
         e['RQ_FAIL_ERRNO'] = str(errno_)
     if short_at is not None:
         e['RQ_SHORT_AT'] = str(short_at)
+    if readdir_at is not None:
+        e['RQ_FAIL_READDIR'] = str(readdir_at)
     return e
 
 
